@@ -520,7 +520,9 @@ where
                     out.hit("C05", "spectator-too-far-behind", &scen, &format!(
                         "spectator {id} fell more than the 60-frame spectator buffer behind during the fault and reports SpectatorTooFarBehind from then on (advanced {adv} frames, current frame {})", cur_frame(p)));
                 } else if !matches!(p.sess, Sess::Dead) && adv < n {
-                    out.hit("C05", "no-progress", &scen, &format!(
+                    // the property the stall belongs to (default: C05, recovery after transient faults)
+                    let label: &str = o.get(3).copied().unwrap_or("C05");
+                    out.hit(label, "no-progress", &scen, &format!(
                         "peer {id} advanced only {adv} frames (expected >= {n}) after the network behaved again; current frame {}", cur_frame(p)));
                 }
             }
